@@ -666,20 +666,25 @@ def foldsVarUses : List Fold → List (Name × QTy)
   | .mk _ _ _ _ _ comp _ _ _ :: rest => varUses comp ++ foldsVarUses rest
 end
 
-/-- One step of the loop: `entry(name).or_insert(ty)`, then `intersect`. The map is kept in name
-order. -/
+/-- `*existing_type = intersection` for the entry of `n`. -/
+def updateVar (n : Name) (i : QTy) : List (Name × QTy) → List (Name × QTy)
+  | [] => []
+  | (m, u) :: rest => if m == n then (m, i) :: rest else (m, u) :: updateVar n i rest
+
+/-- `or_insert_with`: a new entry, at its place in name order (the map is a `BTreeMap`). -/
+def insertVar (n : Name) (t : QTy) : List (Name × QTy) → List (Name × QTy)
+  | [] => [(n, t)]
+  | (m, u) :: rest => if n < m then (n, t) :: (m, u) :: rest else (m, u) :: insertVar n t rest
+
+/-- One step of the loop: `entry(name).or_insert(ty)`, then `intersect` with the use's type
+(for a fresh entry that is `ty.intersect(ty) = ty`). -/
 def addVar (vars : List (Name × QTy)) (n : Name) (t : QTy) : M (List (Name × QTy)) :=
-  match vars with
-  | [] => .ok [(n, t)]
-  | (m, u) :: rest =>
-    if n < m then .ok ((n, t) :: (m, u) :: rest)
-    else if n == m then
-      match u.intersect t with
-      | some i => .ok ((m, i) :: rest)
-      | none => .error .incompatibleVariableTypeRequirements
-    else do
-      let rest' ← addVar rest n t
-      pure ((m, u) :: rest')
+  match vars.find? (·.1 == n) with
+  | some (_, u) =>
+    match u.intersect t with
+    | some i => .ok (updateVar n i vars)
+    | none => .error .incompatibleVariableTypeRequirements
+  | none => .ok (insertVar n t vars)
 
 def addVars : List (Name × QTy) → List (Name × QTy) → M (List (Name × QTy))
   | vars, [] => .ok vars
